@@ -61,4 +61,53 @@ theorem pySliceList_full {α} (l : List α) : pySliceList l none none 1 = l := b
       | cons a t => exact absurd (by simp only [List.length_cons]; omega) hl
     subst this; simp [enumerate]
 
+
+/-! ### Facts used for eager mode's `slice.indices`-based bounds -/
+
+theorem sliceLen_pos_step (s e st : Int) (h : st > 0) : sliceLen s e st = 0 ↔ e ≤ s := by
+  unfold sliceLen
+  simp only [h, if_true]
+  constructor
+  · intro hz
+    by_cases hlt : s < e
+    · simp only [hlt, if_true] at hz
+      have h1 : 0 ≤ (e - s - 1) / st := Int.ediv_nonneg (by omega) (by omega)
+      omega
+    · omega
+  · intro hle
+    have : ¬ s < e := by omega
+    simp [this]
+
+theorem sliceLen_neg_step (s e st : Int) (h : st < 0) : sliceLen s e st = 0 ↔ s ≤ e := by
+  unfold sliceLen
+  have h1 : ¬ st > 0 := by omega
+  simp only [h1, h, if_true, if_false]
+  constructor
+  · intro hz
+    by_cases hlt : e < s
+    · simp only [hlt, if_true] at hz
+      have h2 : 0 ≤ (s - e - 1) / (-st) := Int.ediv_nonneg (by omega) (by omega)
+      omega
+    · omega
+  · intro hle
+    have : ¬ e < s := by omega
+    simp [this]
+
+/-- Range of CPython's adjusted bounds, positive step. -/
+theorem pyAdjust_bounds_pos (d : Int) (lo hi : Option Int) (st : Int) (hd : 0 ≤ d) (h1 : st > 0) :
+    0 ≤ (pyAdjust d lo hi st).1 ∧ (pyAdjust d lo hi st).1 ≤ d ∧
+    0 ≤ (pyAdjust d lo hi st).2 ∧ (pyAdjust d lo hi st).2 ≤ d := by
+  have h2 : ¬ st < 0 := by omega
+  unfold pyAdjust
+  rcases lo with _ | x <;> rcases hi with _ | y <;> simp only [h2, if_false] <;>
+    (refine ⟨?_, ?_, ?_, ?_⟩ <;> (repeat' split) <;> omega)
+
+/-- Range of CPython's adjusted bounds, negative step. -/
+theorem pyAdjust_bounds_neg (d : Int) (lo hi : Option Int) (st : Int) (hd : 0 ≤ d) (h2 : st < 0) :
+    -1 ≤ (pyAdjust d lo hi st).1 ∧ (pyAdjust d lo hi st).1 ≤ d - 1 ∧
+    -1 ≤ (pyAdjust d lo hi st).2 ∧ (pyAdjust d lo hi st).2 ≤ d - 1 := by
+  unfold pyAdjust
+  rcases lo with _ | x <;> rcases hi with _ | y <;> simp only [h2, if_true] <;>
+    (refine ⟨?_, ?_, ?_, ?_⟩ <;> (repeat' split) <;> omega)
+
 end OV.Index
